@@ -183,6 +183,31 @@ theorem removal_then_refused (st : AuthState) (rm h : Handler) (admin : Addr) (p
     rw [step_refuses_unauthorised _ _ h c q hno]
   · rw [if_neg hA] at hacc; cases hacc
 
+/-- a message is accepted only if its signer holds what the guard asks for, in the table as it is -/
+theorem accepted_only_if_holds (v : Bool) (st : AuthState) (h : Handler) (signer : Addr) (p : Option Payload)
+    (hacc : (stepMsgV v st h signer p).2 = .ok) : holds st h.store h.role signer = true := by
+  unfold stepMsgV at hacc
+  split at hacc
+  · rename_i hc; simp only [Bool.and_eq_true] at hc; exact hc.1
+  · cases hacc
+
+/-- a failed transaction changes nothing, whatever its earlier messages did on the branch (so a grant
+    made by a transaction that later fails authorises nobody afterwards) -/
+theorem failed_tx_changes_nothing (spec : String → String → Handler) (st0 : AuthState) :
+    ∀ (ms : List TxMsg) (st : AuthState), (stepTxFrom spec st0 st ms).2 = .err → (stepTxFrom spec st0 st ms).1 = st0
+  | [], st, h => by simp [stepTxFrom] at h
+  | m :: ms, st, h => by
+    unfold stepTxFrom at h ⊢
+    cases hs : stepMsg st (spec m.module m.name) m.signer m.payload with
+    | mk st' o =>
+      cases o with
+      | ok => simp only [hs] at h ⊢; exact failed_tx_changes_nothing spec st0 ms st' h
+      | err => rfl
+
+/-- a simulated transaction changes nothing -/
+theorem simulation_changes_nothing (spec : String → String → Handler) (st : AuthState) (ms : List TxMsg) :
+    (stepSim spec st ms).1 = st := rfl
+
 /-! ### 3. the table, over the regenerated records -/
 
 /-- the six MsgServer interfaces still have the methods the records were made from (none was lost
